@@ -163,9 +163,10 @@ def rule_G3(ctx: Ctx) -> None:
             isinstance(t, ast.Name) and t.id == objname for t in (n.targets if isinstance(n, ast.Assign) else [n.target])))
         order_ok = None not in (p_app, p_upd, p_ret, p_def) and p_def < p_app < p_upd < p_ret
         rec = app.args[0] if app.args else None
-        nm = X.record_value(rec, "name") if rec is not None else None
-        a = X.record_value(rec, "args") if rec is not None else None
-        k = X.record_value(rec, "kwargs") if rec is not None else None
+        xp = lambda e: X.expand_locals(e, node, keep=("args", "kwargs", "method")) if e is not None else None  # through single-definition locals
+        nm = xp(X.record_value(rec, "name")) if rec is not None else None
+        a = xp(X.record_value(rec, "args")) if rec is not None else None
+        k = xp(X.record_value(rec, "kwargs")) if rec is not None else None
         if kind == "custom":
             name_ok = isinstance(nm, ast.JoinedStr) and X.U(nm).startswith("f'__custom__:") and "method.__name__" in X.U(nm)
             args_ok = a is not None and X.U(a) in ("tuple()", "()")
